@@ -8,6 +8,24 @@ From TW Require Import Bytes Floats Values GenToken GenParser Lexer Ast Parser B
 From TW Require Import ExprSem CleanValues TemplateRefine Pratt ExprPipeline StmtParse.
 Open Scope N_scope.
 
+(* the clauses of a @for header *)
+Definition den_init (i : option (token * token * cst)) (n : option (bytes * sexpr)) : Prop :=
+  match i, n with
+  | Some (id, eq, c), Some (x, e) => tel id = 0%nat /\ tlit id = x /\ den c e
+  | None, None => True
+  | _, _ => False
+  end.
+Definition den_cond (c : option cst) (n : option sexpr) : Prop :=
+  match c, n with Some c, Some e => den c e | None, None => True | _, _ => False end.
+Definition den_post (p : option fpc) (n : option fpost) : Prop :=
+  match p, n with
+  | Some (FPE c), Some (PostInc x) => den c (XInc (XVar x))
+  | Some (FPE c), Some (PostDec x) => den c (XDec (XVar x))
+  | Some (FPA id eq c), Some (PostAssign x e) => tel id = 0%nat /\ tlit id = x /\ den c e
+  | None, None => True
+  | _, _ => False
+  end.
+
 Inductive Den : sst -> tnode -> Prop :=
 | DText t : tel t = 0%nat -> Den (TText t) (NText (tlit t))
 | DCode lb rb c e : den c e -> Den (TCode lb rb c) (NPrint e)
@@ -18,6 +36,10 @@ Inductive Den : sst -> tnode -> Prop :=
 | DEach kw lp var inn rp endt c body els earr ebody eels :
     tel kw = 0%nat -> den c earr -> Dens body ebody -> DenElse els eels ->
     Den (TEach kw lp var inn rp endt c body els) (NEach (tlit var) earr ebody eels)
+| DFor kw lp s1 s2 rp endt init cond post body els ninit ncond npost ebody eels :
+    tel kw = 0%nat -> den_init init ninit -> den_cond cond ncond -> den_post post npost ->
+    Dens body ebody -> DenElse els eels ->
+    Den (TFor kw lp s1 s2 rp endt init cond post body els) (NFor ninit ncond npost ebody eels)
 | DBreak t : Den (TBreak t) NBreak
 | DContinue t : Den (TContinue t) NContinue
 | DBreakIf kw lp rp c e : tel kw = 0%nat -> den c e -> Den (TBreakIf kw lp rp c) (NBreakIf e)
@@ -80,6 +102,23 @@ Proof.
     change (match els with Some (te, eb) => Some (filter (fun x => negb (stmt_is_null x)) (map ast_s eb)) | None => None end)
       with (match els with Some (te, eb) => Some (asts eb) | None => None end).
     rewrite Hl. reflexivity.
+  - intros kw lp s1 s2 rp endt init cond post body els ninit ncond npost ebody eels L Di Dc Dp _ Hb _ Hl.
+    cbn [ast_s cnode]. unfold eline. rewrite L. fold (asts body). rewrite Hb.
+    change (match els with Some (te, eb) => Some (filter (fun x => negb (stmt_is_null x)) (map ast_s eb)) | None => None end)
+      with (match els with Some (te, eb) => Some (asts eb) | None => None end).
+    rewrite Hl.
+    assert (Ei : ast_init init = match ninit with Some (x, e) => SAssign 1 x (compile e) | None => SNull end).
+    { destruct init as [[[id eq] c]|], ninit as [[x e]|]; try contradiction; [|reflexivity].
+      destruct Di as (Li & <- & D). cbn [ast_init]. unfold eline. rewrite Li, (den_ast c e D). reflexivity. }
+    assert (Ec : ast_cond cond = match ncond with Some c => compile c | None => ENull end).
+    { destruct cond as [c|], ncond as [e|]; try contradiction; [|reflexivity]. cbn [ast_cond]. rewrite (den_ast c e Dc). reflexivity. }
+    assert (Ep : ast_post post = match npost with Some p => cpost p | None => SNull end).
+    { destruct post as [[c|id eq c]|], npost as [[x|x|x e]|]; try contradiction; cbn [ast_post cpost den_post] in *.
+      - rewrite (den_ast c _ Dp). reflexivity.
+      - rewrite (den_ast c _ Dp). reflexivity.
+      - destruct Dp as (Li & <- & D). unfold eline. rewrite Li, (den_ast c e D). reflexivity.
+      - reflexivity. }
+    rewrite Ei, Ec, Ep. reflexivity.
   - reflexivity.
   - reflexivity.
   - intros kw lp rp c e L D. cbn [ast_s cnode]. unfold eline. rewrite L, (den_ast c e D). reflexivity.
